@@ -315,7 +315,7 @@ impl Harness for C08 {
             lattice_jobs(&mut jobs, "enet", 2, 3, 2, 2, "diag", "zerosum", true);
         }
         for fam in 0..families::N_FAMILIES {
-            for p in 1..=(if t { 3usize } else { 2 }) {
+            for p in 1..=(if t { 4usize } else { 2 }) {
                 let ns: Vec<usize> = if t { vec![p + 1, 12, 60] } else { vec![p + 1, 12] };
                 jobs.push(Job::new(format!("enet-watched-family{}-p{}-shifted", fam, p), json!({"kind": "fam", "est": "enet", "fam": fam, "p": p, "ns": ns, "cfg": "diag", "zero_mean": true, "watch": true})));
             }
@@ -340,7 +340,7 @@ impl Harness for C08 {
         Plan {
             jobs,
             budget_s: if t { 2400 } else { 40 },
-            case_deadline_ms: std::env::var("C08_DEADLINE_MS").ok().and_then(|v| v.parse().ok()).unwrap_or(20_000),
+            case_deadline_ms: 20_000,
             floors: vec![
                 ("fits_ok", 500_000),
                 ("judged_lasso_normalized", 100_000),
